@@ -151,6 +151,15 @@ def discharge(ob, alg, live, budget, tier):
         if st == 'proved':
             return done('proved', 'z3', axioms=info, export=style)
         if st == 'cex':
+            # models of problems without transcendental atoms are exact: confirm with rational arithmetic
+            try:
+                ex = T.exact_eval(list(hyps) + [goal], info)
+                if all(ex[h.id] for h in hyps) and not ex[goal.id]:
+                    return done('refuted', 'z3-model(exact rational evaluation)',
+                                witness={k: float(v) for k, v in info.items()},
+                                witness_exact={k: str(v) for k, v in info.items()}, detail='exact counter-model')
+            except (EvalUndefined, ZeroDivisionError, TypeError, ValueError):
+                pass
             env = {k: float(v) for k, v in info.items()}
             try:
                 se = SampleEval(env)
